@@ -8,6 +8,7 @@ CONSTANTS
   Periodic = FALSE
   Radii = {1, 2}
   MaxN = 3
+  OpenAxes = {}
   M = 1
 INVARIANT Subsequence
 INVARIANT InRange
